@@ -45,13 +45,14 @@ Print Assumptions c13loop_stream_reads_in_order.
 (* A datagram case accepted by lb_ok (C14 on the real QUIC / WebTransport datagram path): every
    message handed up is a written message (same length and digest as the message the harness
    matched byte for byte) - never a partial or mixed reassembly -, no written message is handed up
-   twice (the reads are a sub-multiset of the writes; loss is allowed), and the reader counted no
-   more datagram bytes than the writer sent. *)
+   twice (the reads are a sub-multiset of the writes; loss is allowed; in particular none of the
+   lb_inj malformed datagrams injected on the raw session was handed up), and the reader counted no
+   more datagram bytes than the writer sent plus the injected ones. *)
 Theorem c13loop_dgram_accepted_means : forall c P, lb_k c = LbDgram P -> lb_ok c = true ->
   (forall r, In r (lb_reads c) ->
      exists w i, rd_att r = Some (w, i) /\ desc_at (lb_writers c) w i = Some (rd_len r, rd_dig r))
   /\ NoDup (read_atts (lb_reads c))
-  /\ lb_rx c <= lb_tx c.
+  /\ lb_rx c <= lb_tx c + lb_injb c.
 Proof. exact lb_ok_dgram_sound. Qed.
 Print Assumptions c13loop_dgram_accepted_means.
 
@@ -69,13 +70,15 @@ Proof. vm_compute. repeat split; reflexivity. Qed.
 Example c13loop_example_rejects :
   let ws := [[(3, 7); (1, 8)]; [(2, 9)]] in
   let r w i l d := mkRd (Some (w, i)) l d in
-  lb_ok (mkLb LbFramed false true ws 0 [r 1 0 2 9; r 0 0 3 7; r 0 1 1 8] false 18 18 []) = true
-  /\ lb_ok (mkLb LbFramed false true ws 0 [r 0 1 1 8; r 1 0 2 9; r 0 0 3 7] false 18 18 []) = false
-  /\ lb_ok (mkLb LbFramed false true ws 0 [r 0 0 3 7; r 0 0 3 7; r 1 0 2 9] false 18 18 []) = false
-  /\ lb_ok (mkLb LbFramed false true ws 0 [r 0 0 3 7; mkRd None 3 5; r 1 0 2 9] false 18 18 []) = false
-  /\ lb_ok (mkLb LbFramed false true ws 0 [r 1 0 2 9; r 0 0 3 7; r 0 1 1 8] false 18 17 []) = false
-  /\ lb_ok (mkLb LbFramed false true ws 0 [r 1 0 2 9; r 0 0 3 7] false 13 13 []) = false
-  /\ lb_ok (mkLb (LbDgram 2) false true ws 0 [r 1 0 2 9] false 38 10 [2]) = true
-  /\ lb_ok (mkLb (LbDgram 2) false true ws 0 [r 1 0 2 9; mkRd None 3 5] false 38 38 [2]) = false
-  /\ lb_ok (mkLb (LbDgram 2) false true ws 0 [r 1 0 2 9; r 1 0 2 9] false 38 38 [2]) = false.
+  lb_ok (mkLb LbFramed false true ws 0 [r 1 0 2 9; r 0 0 3 7; r 0 1 1 8] false 18 18 [] 0 0) = true
+  /\ lb_ok (mkLb LbFramed false true ws 0 [r 0 1 1 8; r 1 0 2 9; r 0 0 3 7] false 18 18 [] 0 0) = false
+  /\ lb_ok (mkLb LbFramed false true ws 0 [r 0 0 3 7; r 0 0 3 7; r 1 0 2 9] false 18 18 [] 0 0) = false
+  /\ lb_ok (mkLb LbFramed false true ws 0 [r 0 0 3 7; mkRd None 3 5; r 1 0 2 9] false 18 18 [] 0 0) = false
+  /\ lb_ok (mkLb LbFramed false true ws 0 [r 1 0 2 9; r 0 0 3 7; r 0 1 1 8] false 18 17 [] 0 0) = false
+  /\ lb_ok (mkLb LbFramed false true ws 0 [r 1 0 2 9; r 0 0 3 7] false 13 13 [] 0 0) = false
+  /\ lb_ok (mkLb (LbDgram 2) false true ws 0 [r 1 0 2 9] false 38 10 [2] 0 0) = true
+  /\ lb_ok (mkLb (LbDgram 2) false true ws 0 [r 1 0 2 9; mkRd None 3 5] false 38 38 [2] 0 0) = false
+  /\ lb_ok (mkLb (LbDgram 2) false true ws 0 [r 1 0 2 9; r 1 0 2 9] false 38 38 [2] 0 0) = false
+  /\ lb_ok (mkLb (LbDgram 2) false false ws 0 [r 1 0 2 9; r 0 0 3 7] false 38 50 [2] 3 12) = true
+  /\ lb_ok (mkLb (LbDgram 2) false false ws 0 [r 1 0 2 9; mkRd None 5 77; r 0 0 3 7] false 38 50 [2] 3 12) = false.
 Proof. vm_compute. repeat split; reflexivity. Qed.
